@@ -219,6 +219,11 @@ def setStale (s : St) (c : Nat) (b : Bool) : St :=
   | none => s
   | some o => { s with obj := upd s.obj o { s.obj o with stale := b } }
 
+/-- `Register(NewControlConnection(c, …))` in any state of the registry (the connID may be registered):
+limit check (evict the oldest), replacement of the existing entry of `c` (`removeConnectionLocked(existing)`,
+which closes the stream — the one the new object shares), insert. -/
+def reRegister (v : Variant) (s : St) (c : Nat) : St := insertNew (removeConn v (evictForRoom v s) c) c
+
 inductive Op where
   | accept (c : Nat)                 -- AcceptConnection (an id in use is refused; a torn-down id may come back)
   | hsFail (c : Nat)                 -- Handshake packet, the auth handler refuses
@@ -234,6 +239,11 @@ inductive Op where
   | unreg (c : Nat)                  -- clientRegistry.Unregister
   | treg (c : Nat)                   -- RegisterTunnelConnection
   | brk (c : Nat)                    -- the peer breaks the transport
+  | reg (c x : Nat)                  -- RegisterControlConnection of a new object built from SessionManager's entry of c:
+                                     -- x = 0 unauthenticated (any state: limit eviction + replacement of the existing entry);
+                                     -- x > 0 pre-authenticated as x, the temporary control connection of
+                                     -- notifyTargetClientToOpenTunnel (its preconditions: no connection is indexed for x,
+                                     -- c is not registered as a control connection, its stream is not closed)
 deriving DecidableEq, Repr
 
 def step (v : Variant) (s : St) : Op → St
@@ -272,6 +282,13 @@ def step (v : Variant) (s : St) : Op → St
   | .unreg c => if c < s.n then unregister v s c else s
   | .treg c => if c < s.n ∧ s.sconn c = true then { s with tconn := upd s.tconn c true } else s
   | .brk c => if c < s.n then { s with broken := upd s.broken c true } else s
+  | .reg c x =>
+    if c < s.n ∧ s.sconn c = true then
+      if x = 0 then reRegister v s c
+      else if s.idx x = none ∧ s.connMap c = none ∧ s.closed c = false then
+        updateAuth v (registerNew v s c) c x   -- insert, then `if conn.Authenticated && conn.ClientID > 0 { clientIDMap[x] = conn }`
+      else s
+    else s
 
 def run (v : Variant) (s : St) (ops : List Op) : St := ops.foldl (step v) s
 
